@@ -2,3 +2,6 @@ import PrologVerif.Basic
 import PrologVerif.Model.Errors
 import PrologVerif.Model.Ops
 import PrologVerif.Spec.OpTable
+import PrologVerif.Spec.Iter
+import PrologVerif.Model.Solutions
+import PrologVerif.Model.Api
